@@ -8,7 +8,7 @@ from graphql import GraphQLError, GraphQLSyntaxError, parse, print_ast, print_sc
 from graphql.validation import specified_rules
 
 from ..gen import docmut, src
-from ..gen.doc import DocGen
+from ..gen.doc import DocGen, directive_argument_soup
 from ..gen.schemas import rich_inc as rich
 from ..mon.astutil import plain
 from ..ref import lexer as R1
@@ -285,6 +285,13 @@ def sdl_case(ctx, rng, k):
 def run_shard(ctx):
     for k in range(ctx.n(1600, 50000)):
         sdl_case(ctx, ctx.rng, k)
+    # every executable directive at every kind of position of every operation type, well- and ill-typed arguments
+    inc = rich()
+    inc_snapshot = print_schema(inc)
+    for i, text in enumerate(directive_argument_soup(inc)):
+        if ctx.mine(i):
+            ctx.count("directive_argument_documents")
+            check_doc(ctx, inc, text, ctx.rng, "directive-argument soup", inc_snapshot)
     schema = rich()
     snapshot = print_schema(schema)
     vocab = docmut.vocabulary(schema)
